@@ -368,7 +368,7 @@ def loss_modes(kind, system, mode, with_parts, eq_order=("a", "b"), python_weigh
             def call(a):
                 loss, pd, batch = S.build(a, {}, tuple(S.uk) if kind != "statio" else (), (S.uk[0],) if with_parts else (), ())
                 if with_parts:
-                    batch = eqx.tree_at(lambda b: b.param_batch_dict, batch, {"a": a["acol"]}, is_leaf=lambda x: x is None)
+                    batch = put_at(lambda b: b.param_batch_dict, batch, {"a": a["acol"]})
                 return loss, pd, batch
         else:
             S = Scen(kind, B=2, eq_order=eq_order, m=2 if python_weights else 1)
